@@ -20,97 +20,99 @@ TRUSTED = [
     "impl/t_c14x.c (lyx.c included unchanged + the four lyd_dup_* entry points with a parent argument, lyd_merge_tree / "
     "lyd_merge_module with a recording callback, anydata values / opaque nodes, extended dump with flags and private pointers, "
     "heap-disjointness and context-ownership walks), tools/props/comps_c14x.py (generator additions: anydata / anyxml / when / "
-    "second module / rpc; dup_expect and merge_ref: the expected trees computed from the dumps of the operands)",
+    "modules m2 m3 m4 / rpc / features; dup_expect and merge_ref: the expected trees computed from the dumps of the operands, "
+    "written from the documentation of the options, NOT verified)",
 ]
 
 ASSUMPTIONS = [
-    "the theorems assume operands that are canonical (Tree.Canon) and have unique instance identities (MergeP.UniqIds); the "
-    "correspondence run checks canonb on every parsed operand it feeds (component treeio) and libyang's validation is what "
-    "establishes uniqueness; schemas satisfy Tree.schema_okb (checked by treeio on every generated schema)",
-    "the sibling anchor search of lyd_insert_node is modelled on canonical siblings only; one module; no opaque nodes, no "
-    "LYD_NEW / when flags, no hashes",
+    "the theorems assume operands that are canonical (Tree.Canon) and have unique instance identities (TreeP.UniqIds; instances "
+    "of duplicate-instance lists may repeat); the correspondence run evaluates canonb / uniq_idsb on every parsed operand it "
+    "feeds (C14_hypotheses_checkable turns that into the hypotheses) and libyang's validation is what establishes uniqueness; "
+    "the path-wise and level-wise theorems also assume Tree.schema_okb (evaluated by treeio on every generated schema)",
+    "model fragment: the sibling anchor search of lyd_insert_node on canonical siblings only; one module without augments, "
+    "when, if-feature, operations; no opaque nodes, no LYD_NEW / when flags, no hashes / sorting trees; options = "
+    "LYD_MERGE_DEFAULTS and LYD_MERGE_WITH_FLAGS (LYD_MERGE_DESTRUCT is not in the model: both modes are compared with the one "
+    "function); anydata is a term kind of the model (KAny) but the T2 generator produces no anydata instance",
 ]
 
 MANIFEST = {
     "category": "proof",
-    "text": "Coq (Properties_C14_merge.v, closed under the global context) about Merge.merge, a branch-by-branch transcription of "
-            "lyd_merge_siblings / lyd_merge_sibling_r (matching by instance identity, duplicate-instance cache, leaf overwrite with "
-            "default-flag handling and LYD_MERGE_DEFAULTS / WITH_FLAGS, the walk up of lyd_np_cont_dflt_del/_set, recursion without "
-            "keys, insertion at the canonical position) on the shared Tree.v model: the merged tree is canonical again "
-            "(C14_merge_canon) and keeps identities unique (C14_merge_uniq); every explicit source node addressed by its instance "
-            "path is in the result with the source's value (C14_merge_contains_source_by_path) and, at full strength and by position "
-            "among equal instances, every source subtree is absorbed by the result (C14_merge_contains_source); target nodes whose path the source "
-            "does not contain are unchanged (C14_merge_keeps_rest); merging the same source again changes nothing, "
-            "duplicate-instance lists included (C14_merge_idempotent); merge into the empty tree yields the source, duplicate-instance lists included (C14_merge_empty); "
-            "level-wise: unmatched children - also instances of duplicate-instance lists - are kept and leaf-list instances are "
-            "contained by value (C14_merge_level, C14_merge_keeps_unmatched_child/_top, C14_merge_keeps_dup_below/_top - a duplicate instance that a source instance equals "
-            "stays fully equal -, C14_merge_contains_leaflist_below/_top, C14_merge_copies_new); no _partial theorem is left. Tie: the "
+    "text": "Coq (Properties_C14_merge.v, 21 theorems, each closed under the global context) about Merge.merge, a branch-by-branch "
+            "transcription of lyd_merge_siblings / lyd_merge_sibling_r (matching by instance identity, duplicate-instance cache, "
+            "leaf overwrite with default-flag handling and LYD_MERGE_DEFAULTS / WITH_FLAGS, the walk up of "
+            "lyd_np_cont_dflt_del/_set, recursion without keys, insertion at the canonical position) on the shared Tree.v model. "
+            "For all schemas, option pairs and operands with the named hypotheses (Canon = canonical sibling order, UniqIds = "
+            "unique instance identities, schema_okb where paths are used): the merged tree is canonical again (C14_merge_canon: "
+            "Canon T, Canon S) and keeps identities unique (C14_merge_uniq); the k-th source node of a class (instance identity; "
+            "full equality for duplicate-instance lists) meets the k-th node of that class in the result, which has absorbed it "
+            "(C14_merge_contains_source, Canon T S + UniqIds S; C14_absorbed_children / _term_value / _dup_equal unfold "
+            "'absorbed': the source's value for every explicit term - every term with LYD_MERGE_DEFAULTS -, full equality of "
+            "duplicate instances, recursively); the same by instance path for nodes that have one "
+            "(C14_merge_contains_source_by_path), with C14_merge_contains_leaflist_below / _top and C14_merge_copies_new; target "
+            "nodes whose path the source lacks are unchanged (C14_merge_keeps_rest), unmatched children / top-level nodes are kept "
+            "(C14_merge_keeps_unmatched_child / _top) and a target instance of a duplicate-instance list keeps a fully equal "
+            "instance (C14_merge_keeps_dup_below / _top; only default flags may change) - together every target node, see the "
+            "header of the Properties file; merging the same source again changes nothing, duplicate-instance lists included "
+            "(C14_merge_idempotent: Canon T S + UniqIds S); merge into the empty tree yields the source (C14_merge_empty; the "
+            "LYD_NEW mark of the copies is not in the model); C14_merge_level gives the level-wise structure. "
+            "C14_merge_source_pure and C14_dup_equal are trivial in the model (the source is a function argument; Merge.dup is "
+            "the identity): source-untouched, same-result-when-consumed and every dup law rest on T2 / the oracles, not on them. "
+            "C14_hypotheses_checkable: the boolean checkers T2 evaluates imply Canon and UniqIds. Tie (T2): the "
             "extracted model and lyd_merge_siblings run on the same dumped operands with all 8 option combinations (destructive "
-            "and non-destructive against the ONE model function, so both give the same result), the source dump before/after, a "
-            "second merge and the invariant checker; dumps must agree byte for byte incl. default flags and metadata "
-            "(component mergemodel); the Tree foundation itself is tied by component treeio (parse, canonb, shuffled re-insertion "
-            "with insert_node, print). The API oracle mergedup (also under ASan) checks the same laws plus duplicates: equal per "
-            "option set, into another context, and independent (editing / freeing either tree leaves the other's dump unchanged). "
-            "Oracles dupmatrix / mergekinds (comps_c14x.py, driver t_c14x) extend this to what Tree.v does not hold: anydata / anyxml "
-            "values of every representation, opaque nodes with attributes (created by the API and by the parser), metadata on every "
-            "node kind, a second module, an rpc tree. dupmatrix: LYD_DUP_RECURSIVE / NO_META / WITH_PARENTS / WITH_FLAGS / WITH_PRIV in "
-            "all combinations x lyd_dup_single / _siblings / _single_to_ctx / _siblings_to_ctx x with / without a parent argument "
-            "(same and other context, matching / not matching ancestor) x node position classes; the expected tree, the returned "
-            "node and the refusals are computed from the dump of the original (dup_expect), plus heap disjointness (no common "
-            "block), context ownership of every node, original unchanged, duplicate intact after editing / freeing the other. "
-            "mergekinds: LYD_MERGE_DESTRUCT / DEFAULTS / WITH_FLAGS in all combinations x lyd_merge_tree / _siblings / _module "
-            "(callback log, module filter), empty / equal / nested source, empty target; result, LYD_NEW marks, callback calls, "
-            "source afterwards and a second merge are compared with a reference merge of the dumped operands (merge_ref); consumed "
-            "sources are duplicates or freshly parsed trees that own the sorting trees of long system-ordered (leaf-)lists. "
-            "dupfamilies / mergefamilies run the same two judges over schema FAMILIES: a second module m3 defines equal local names "
-            "at the same level as m1 (augments into m1's containers, lists, choices / cases, rpc input; top-level nodes named like "
-            "m1's), a third module m2; the second context holds the same modules loaded in another order with another feature set; "
-            "dumps are module-qualified. dupfamilies biases the matrix to lyd_dup_single_to_ctx / lyd_dup_siblings_to_ctx (with / "
-            "without WITH_PARENTS / RECURSIVE, parent arguments of the other context incl. one named like an ancestor but of the "
-            "other module, which must be refused), duplicates half of the cross-context duplicates back (context 1 -> 2 -> 1) and "
-            "requires the whole forest to survive the round trip unchanged (dump, private pointers, lyd_compare_siblings); "
-            "mergefamilies merges, in the second context, a source duplicated from the first one. originuse covers origin format x "
-            "later use of the copy: source trees parsed from XML, JSON and LYB documents (validated and LYD_PARSE_ONLY) with every "
-            "value type that keeps format-dependent state (unions of every member kind as leaf, key, leaf-list and metadata value, "
-            "instance-identifier, identityref, leafref, binary, bits, decimal64, anydata); every duplicate (all entry points, other "
-            "context) and merge result (copying and consuming, into an empty target) is judged as above and then USED: printed by "
-            "the three printers (text equal to the original's; LYB bytes equal when flags were copied), parsed back and compared "
-            "with lyd_compare_siblings, lyd_validate_all on the copy (must succeed and change nothing), compared with the original.",
-    "note": "PARTIAL. (1) Independence of a duplicate / of the merge source is a heap property (no shared mutable state): the value "
-            "model cannot express it, Merge.dup is the identity; only the sanitizer-backed oracle looks at it. (2) No "
-            "_partial theorem is left in Properties_C14_merge.v (Canon / UniqIds / schema_okb are the domain of valid trees, checked "
-            "on every operand by T2). C14_merge_contains_source is FULL, in positional form: the k-th source node of a class (class = "
-            "instance identity, full equality for duplicate-instance lists) meets the k-th node of that class in the result, which "
-            "has absorbed it (MergeP.AbsN; C14_absorbed_children / _term_value / _dup_equal unfold that: source values of explicit "
-            "terms, full equality of duplicate instances, recursively) - multiplicities, key-less list instances and what is "
-            "below them included; C14_merge_contains_source_by_path is the same by instance path for the nodes that have one, "
-            "with C14_merge_contains_leaflist_below / _top and C14_merge_copies_new. C14_merge_keeps_rest (target nodes with an "
-            "instance path the source lacks are unchanged) together with C14_merge_keeps_unmatched_child / _top (any child of an "
-            "addressable target node, or top-level node, that no source sibling matches stays unchanged) and "
-            "C14_merge_keeps_dup_below / _top (an instance of a duplicate-instance list that a source instance equals stays "
-            "fully equal, only default flags may change) covers every target node (case analysis in the header of the "
-            "Properties file); the last two rest on dp_stmt and the function-level level lemma level_fn. "
-            "C14_merge_idempotent is FULL now (was _partial: the hypothesis that no source node is an instance of a "
-            "duplicate-instance list is removed): a positional absorbed relation (MergeP.AbsN: the k-th equal source instance is "
-            "absorbed by the k-th equal instance of the result) and cache invariants (E1 / E2 / CI2) are carried through both "
-            "merges, together with the lemma that updating an instance with a fully equal source instance changes only default "
-            "flags (dp_stmt), so instances of key-less lists stay in their class while their siblings are merged; nothing is "
-            "assumed about the target's identities.  C14_merge_level gives the level-wise structure (children of the merged "
-            "node = MFold MStep of the source children over the target children) these rest on. (3) lyd_dup_* options (parents, no-meta, flags, to another context, parent "
-            "argument) are not in the Coq model; they are decided by the oracle dupmatrix against an independent expectation. "
-            "(4) Not in Tree.v: LYD_NEW, opaque nodes, anydata, several modules, hashes / lyds trees (C04); merge on these is decided "
-            "by mergekinds against a Python reference (which leaves the default mark of non-presence containers and the order inside "
-            "system-ordered lists to mergemodel / the invariant checker). LYD_DUP_NO_EXT / extension data (schema mount) and "
-            "notifications are not exercised; a TOP-LEVEL choice is not augmented with a case of another module (the data parsers "
-            "reject such a node: reported, C02) and opaque values with an unresolvable prefix are not generated (lyd_compare_single "
-            "is not reflexive for them: reported). anydata / anyxml nodes with a NULL value of every value type (string types "
-            "included) ARE generated (xanyset N) and duplicated / merged / dumped, but such a tree is never printed as LYB (the LYB "
-            "values are printed from copies taken before the edits), so the strlen(NULL) of lyb_print_node_any reported by the "
-            "difftree slice is not reachable from these oracles. Open finding dup-to-ctx-union-member (cross-context copy of a union value changes its member: LYB round trip "
-            "of the copy differs). A leafref member inside the union typedef used by a metadata annotation aborts in "
-            "lyplg_type_store_leafref (realtype not resolved; reported) - the originuse module has no such member. Findings of these "
-            "oracles fixed so far (known_findings.d/c14x.json: 328b4fe 2848a32 "
-            "1e72cd5 aad6b04 c60598c); their witnesses are regression cases in corpus/dupmatrix.txt and corpus/mergekinds.txt.",
+            "and non-destructive against the ONE model function), the source dump before/after, a second merge and the invariant "
+            "checker; dumps must agree byte for byte incl. default flags and metadata (component mergemodel); the Tree foundation "
+            "is tied by component treeio (parse, canonb, shuffled re-insertion with insert_node, print). ORACLE LEVEL ONLY (no "
+            "model): mergedup checks the merge laws and duplicates through the API: equal per option set, into another context, "
+            "independent (editing / freeing either tree leaves the other's dump unchanged); ASan build in the thorough tier. "
+            "dupmatrix / mergekinds (comps_c14x.py, driver t_c14x) extend this to what T2 does not feed: anydata / anyxml values "
+            "of every representation, opaque nodes with attributes (API- and parser-made), metadata on every node kind, a second "
+            "module, an rpc tree. dupmatrix: LYD_DUP_RECURSIVE / NO_META / WITH_PARENTS / WITH_FLAGS / WITH_PRIV in all "
+            "combinations x lyd_dup_single / _siblings / _single_to_ctx / _siblings_to_ctx x with / without a parent argument "
+            "(same and other context, matching / not matching ancestor) x node position classes; expected tree, returned node "
+            "and refusals are computed from the dump of the original (dup_expect), plus heap disjointness, context ownership of "
+            "every node, original unchanged, duplicate intact after editing / freeing the other. mergekinds: LYD_MERGE_DESTRUCT / "
+            "DEFAULTS / WITH_FLAGS in all combinations x lyd_merge_tree / _siblings / _module (callback log, module filter), "
+            "empty / equal / nested source, empty target; result, LYD_NEW marks, callback calls, source afterwards and a second "
+            "merge are compared with a reference merge of the dumped operands (merge_ref); consumed sources are duplicates or "
+            "freshly parsed trees owning the sorting trees of long system-ordered (leaf-)lists. dupfamilies / mergefamilies run "
+            "the same judges over schema families: module m3 defines equal local names at the same level as m1 (augments into "
+            "m1's containers, lists, choices inside them, rpc input; top-level nodes named like m1's), m2 is a third module; the second "
+            "context holds the same modules in another load order with another feature set; dumps are module-qualified; "
+            "dupfamilies biases to the *_to_ctx entry points (incl. a parent named like an ancestor but of the other module, "
+            "which must be refused), duplicates about half of the cross-context duplicates back and requires the whole forest "
+            "to survive context 1 -> 2 -> 1 unchanged; mergefamilies merges in the second context a source duplicated from the "
+            "first. originuse: origin format x later use of the copy - sources parsed from XML, JSON and LYB (validated and "
+            "LYD_PARSE_ONLY) with every value type that keeps format-dependent state (unions of every member kind as leaf, key, "
+            "leaf-list and metadata value, instance-identifier, identityref, leafref, binary, bits, decimal64, anydata); every "
+            "duplicate and merge result is judged as above and then used: three printers (text equal to the original's, LYB "
+            "bytes when flags were copied and no anydata), parse back + lyd_compare_siblings, lyd_validate_all on the copy "
+            "(succeeds, changes nothing), compare with the original.",
+    "note": "PARTIAL. (1) Independence of a duplicate / of the merge source is a heap property: the value model cannot express "
+            "it (Merge.dup is the identity); it rests on the oracles (pointer-disjointness walk, dumps after editing / freeing, "
+            "ASan in the thorough tier) alone. (2) The 21 theorems are about Merge.merge only; no _partial / _refuted theorem "
+            "exists. Canon / UniqIds / schema_okb are the domain of valid trees (checked on every operand by T2), not a "
+            "weakening. C14_merge_keeps_dup_below / _top rest on MergeP.dp_stmt (updating an instance with a fully equal source "
+            "instance changes only default flags) and the level lemma MergeP.level_fn; C14_merge_idempotent carries the "
+            "positional absorbed relation MergeP.AbsN and cache invariants through both merges and assumes nothing about the "
+            "target's identities. (3) lyd_dup_* options (parents, no-meta, flags, private pointers, other context, parent "
+            "argument), lyd_merge_tree / lyd_merge_module, LYD_MERGE_DESTRUCT and LYD_NEW are NOT in the Coq model: they are "
+            "decided by dupmatrix / mergekinds against expectations written in Python (dup_expect, merge_ref: trusted, not "
+            "verified). (4) Not fed to the model by T2 although partly expressible: anydata (KAny exists, no instance is "
+            "generated); not in Tree.v at all: opaque nodes, several modules / augments, when / LYD_NEW flags, hashes / sorting "
+            "trees (C04). merge_ref leaves the default mark of non-presence containers, the order inside system-ordered lists "
+            "and the top-level order between modules to mergemodel / the invariant checker, and compares anydata data trees "
+            "without their metadata (as lyd_compare_single does). (5) Outside everything: LYD_DUP_NO_EXT / extension data (schema "
+            "mount), notifications, rpc output; a top-level choice augmented with a case of another module (the parsers reject "
+            "such data: known finding toplevel-choice-foreign-case, C02); opaque values with an unresolvable prefix "
+            "(lyd_compare_single is not reflexive for them: reported); a leafref member in a union typedef used by a metadata "
+            "annotation (aborts in lyplg_type_store_leafref: reported). anydata / anyxml nodes with a NULL value of every value "
+            "type are generated and duplicated / merged / dumped but never printed as LYB (the LYB values come from copies taken "
+            "before the edits), so the strlen(NULL) of lyb_print_node_any reported by the difftree slice is not reachable here. "
+            "Open known finding of these oracles: dup-to-ctx-union-member (a union value copied into another context changes "
+            "its member: the LYB round trip of the copy differs). Fixed ones (known_findings.d/c14x.json): "
+            "dup-to-ctx-any-tree-ctx 328b4fe, dup-to-ctx-key-lookup 2848a32, merge-opaque-nested-dup-inst 1e72cd5, "
+            "merge-opaque-value-update aad6b04, compare-opaque-name-ignored c60598c; their witnesses are regression cases in "
+            "corpus/dupmatrix.txt and corpus/mergekinds.txt.",
     "technique": "Coq proof about a transcribed functional model + differential correspondence on libyang dumps + metamorphic API "
-                 "oracle under ASan",
+                 "oracles with independently computed expectations (ASan in the thorough tier)",
 }
